@@ -323,7 +323,7 @@ impl UndefinedFunctionError {
             .to_string();
         let arity = map
             .get(&OwnedTerm::Atom(Atom::new("arity")))?
-            .as_integer()? as u8;
+            .as_integer().and_then(|v| u8::try_from(v).ok())?;
         let reason = map
             .get(&OwnedTerm::Atom(Atom::new("reason")))
             .and_then(|v| v.as_erlang_string());
